@@ -71,6 +71,22 @@ def build():
             return e
         return mk
 
+    def in_handler(outer, inner, from_none=False):
+        """outer() raised while inner() is being handled: inner becomes the *implicit* __context__ (not __cause__);
+        with `from None` the context is kept but suppressed.  hailtop.utils follows explicit causes only."""
+        def mk():
+            try:
+                try:
+                    raise inner()
+                except BaseException:  # noqa
+                    if from_none:
+                        raise outer() from None
+                    raise outer()
+            except BaseException as e:  # noqa
+                assert e.__context__ is not None
+                return e
+        return mk
+
     def docker(status, msg):
         return lambda: _DockerError(status, {"message": msg})
 
@@ -107,6 +123,17 @@ def build():
     add("requests-timeout-base", (), lambda: requests.exceptions.Timeout("t"))
     add("chained-permanent", (), chained(lambda: RuntimeError("wrap"), lambda: ValueError("inner")))
     add("chained2-permanent", (), chained(lambda: RuntimeError("wrap"), chained(lambda: KeyError("k"), aio(404))))
+    # a permanent error raised while a transient / limited / rate-limit one is being handled is still a permanent error:
+    # the handled exception is only its implicit __context__
+    add("permanent-in-transient-handler", (), in_handler(lambda: ValueError("cleanup failed"), lambda: TransientError("try again")))
+    add("permanent-in-http503-handler", (), in_handler(aio(404), aio(503)))
+    add("permanent-in-oserror-handler", (), in_handler(lambda: KeyError("k"), lambda: OSError(errno.ETIMEDOUT, "timed out")))
+    add("permanent-from-None-in-transient-handler", (), in_handler(lambda: ValueError("translated"), lambda: TransientError("try again"), True))
+    add("permanent-from-None-in-429-handler", (), in_handler(hxe(400, "Invalid argument."), hxe(429, "slow down"), True))
+    add("permanent-in-limited-handler", (), in_handler(lambda: RuntimeError("wrap"), lambda: ConnectionResetError("Cannot write to closing transport")))
+    add("permanent-from-None-in-limited-handler", (), in_handler(lambda: RuntimeError("wrap"), lambda: ConnectionRefusedError("refused"), True))
+    add("permanent-cause-with-transient-context", (), in_handler(chained(lambda: RuntimeError("wrap"), lambda: ValueError("explicit cause")),
+                                                                  lambda: TransientError("handled")))
     add("docker-500-invalid-repo", (), docker(500, "Invalid repository name (x), only [a-z0-9-_.] are allowed"), True)
     add("docker-500-artifactregistry", (), docker(500, "Permission 'artifactregistry.repositories.downloadArtifacts' denied on resource 'p'"), True)
     add("docker-500-permissions", (), docker(500, "denied: retrieving permissions failed"), True)
@@ -140,6 +167,11 @@ def build():
     add("chained-transient", (T,), chained(lambda: RuntimeError("wrap"), lambda: TransientError("inner")))
     add("chained2-transient", (T,), chained(lambda: RuntimeError("wrap"), chained(lambda: ValueError("mid"), aio(503))))
     add("chained-permanent-outer-http", (T,), chained(aio(404), lambda: OSError(errno.ETIMEDOUT, "timed out")))
+    # a transient error keeps its class whatever was being handled when it was raised
+    add("transient-in-permanent-handler", (T,), in_handler(lambda: TransientError("again"), lambda: ValueError("bad")))
+    add("http503-from-None-in-permanent-handler", (T,), in_handler(aio(503), lambda: KeyError("k"), True))
+    add("transient-cause-with-permanent-context", (T,), in_handler(chained(lambda: RuntimeError("wrap"), lambda: TransientError("explicit cause")),
+                                                                 lambda: ValueError("handled")))
     add("docker-503", (T,), docker(503, "service unavailable"), True)
     add("docker-500-other", (T,), docker(500, "Get https://gcr.io/v2/: net/http: request canceled"), True)
     add("docker-429", (T,), docker(429, "toomanyrequests"), True)
@@ -154,6 +186,7 @@ def build():
     add("refused-no-errno", (L,), lambda: ConnectionRefusedError("refused"))
     add("chained-limited", (L,), chained(lambda: RuntimeError("wrap"), lambda: ConnectionResetError("Cannot write to closing transport")))
     add("chained-limited-http", (L,), chained(aio(404), lambda: ConnectionRefusedError("refused")))
+    add("limited-in-transient-handler", (L,), in_handler(lambda: ConnectionResetError("Cannot write to closing transport"), lambda: TransientError("handled")))
     add("docker-404-azurecr-manifest", (L,), docker(404, "manifest for x.azurecr.io/img:tag not found: manifest unknown: manifest tagged by \"tag\" is not found"), True)
     # ---------------------------------------------------------------- limited and transient
     add("reset-104", (L, T), lambda: ConnectionResetError(errno.ECONNRESET, "Connection reset by peer"))
